@@ -394,6 +394,13 @@ func c07Main(t *testing.T, unit string, ctors []any, payloads map[string]func() 
 		if err := json.Unmarshal(ctx.ReplayRaw, &rf); err != nil {
 			t.Fatal(err)
 		}
+		if rf.Replay.RO == "struct-copy" {
+			vs, _ := c07StructCopySweep(payloads, rf.Replay.Type)
+			for _, v := range vs {
+				ctx.Violate(v[0], v[1], rf.Replay)
+			}
+			return
+		}
 		if rf.Replay.RO != "" {
 			for _, v := range c07ReadOnlySweep(payloads, rf.Replay.Type) {
 				ctx.Violate(v[0], v[1], rf.Replay)
@@ -472,6 +479,21 @@ func c07Main(t *testing.T, unit string, ctors []any, payloads map[string]func() 
 			}
 			ctx.R.Extra["readonly_mutators_"+name] = c07ROCount
 			ctx.Nontrivial(vr.Hash("ro", name))
+		}
+		// struct-level CopyTo between every two elements of every slice of the payload, and from / into a fresh element
+		for name := range payloads {
+			vs, n := c07StructCopySweep(payloads, name)
+			ctx.R.Evals += int64(n)
+			ctx.R.Trans += int64(n)
+			ctx.R.Traces += int64(n - len(vs))
+			for _, v := range vs {
+				ctx.Violate(v[0], v[1], c07Case{Type: name, RO: "struct-copy"})
+			}
+			ctx.R.Extra["struct_copies_"+name] = n
+			ctx.R.Extra["struct_copy_slices_"+name] = strings.Join(c07SCSlices, " | ")
+			c07SCSlices = nil
+			ctx.Nontrivial(vr.Hash("struct-copy", name))
+			ctx.Outcome(fmt.Sprintf("struct-copy:%s:violations=%d", name, len(vs)))
 		}
 	}
 	ctx.R.States = ctx.R.Evals
@@ -716,4 +738,359 @@ func c07Perturb(v reflect.Value, depth int, seen map[string]bool, path string) {
 			am.Call(nil)
 		}
 	}()
+}
+
+
+// ---- struct-level CopyTo: "copying a value into any other destination ... makes the destination equal to the source"
+// for the message types themselves. Every slice reachable in the (fully populated) payload supplies destinations and
+// sources of its element type: each of its elements, and a fresh element (AppendEmpty: nothing set, no optional field, the
+// empty alternative of every one-of). For every ordered pair (source, destination) the payload is rebuilt, the copy made,
+// and the two compared through ALL their public readers, recursively.
+
+var c07MutatorPrefixes = []string{"Set", "Append", "Remove", "Ensure", "Move", "From", "Sort", "Put", "Clear", "Copy", "Mark", "New"}
+
+func c07IsMutatorName(n string) bool {
+	for _, p := range c07MutatorPrefixes {
+		if strings.HasPrefix(n, p) {
+			return true
+		}
+	}
+	return false
+}
+
+// c07Obs renders everything the public readers of v say (recursively); a reader that panics (accessor of another one-of
+// alternative) is rendered as such.
+func c07Obs(v reflect.Value, depth int) string {
+	if depth > 24 {
+		return "<deep>"
+	}
+	ty := v.Type()
+	if m, ok := ty.MethodByName("AsRaw"); ok && m.Type.NumIn() == 1 {
+		var out string
+		func() {
+			defer func() {
+				if r := recover(); r != nil {
+					out = "<panic>"
+				}
+			}()
+			raw := v.MethodByName("AsRaw").Call(nil)[0].Interface()
+			b, _ := json.Marshal(raw)
+			out = fmt.Sprintf("%T:%s", raw, b)
+		}()
+		return out
+	}
+	if _, ok := ty.MethodByName("At"); ok {
+		if _, ok := ty.MethodByName("Len"); ok {
+			var sb strings.Builder
+			func() {
+				defer func() {
+					if r := recover(); r != nil {
+						sb.WriteString("<panic>")
+					}
+				}()
+				n := int(v.MethodByName("Len").Call(nil)[0].Int())
+				sb.WriteString("[")
+				for i := 0; i < n; i++ {
+					sb.WriteString(c07Obs(v.MethodByName("At").Call([]reflect.Value{reflect.ValueOf(i)})[0], depth+1))
+					sb.WriteString(",")
+				}
+				sb.WriteString("]")
+			}()
+			return sb.String()
+		}
+	}
+	var sb strings.Builder
+	sb.WriteString("{")
+	for i := 0; i < ty.NumMethod(); i++ {
+		m := ty.Method(i)
+		if m.Type.NumIn() != 1 || m.Type.NumOut() != 1 || c07IsMutatorName(m.Name) || m.Name == "IsReadOnly" {
+			continue
+		}
+		func() {
+			defer func() {
+				if r := recover(); r != nil {
+					sb.WriteString(m.Name + ":<panic>;")
+				}
+			}()
+			r := v.Method(i).Call(nil)[0]
+			if r.Kind() == reflect.Struct && r.NumMethod() > 0 && strings.Contains(r.Type().PkgPath(), "/pdata/") {
+				sb.WriteString(m.Name + ":" + c07Obs(r, depth+1) + ";")
+				return
+			}
+			if st, ok := r.Interface().(fmt.Stringer); ok && r.Kind() != reflect.Struct {
+				sb.WriteString(fmt.Sprintf("%s:%v(%s);", m.Name, r.Interface(), st.String()))
+				return
+			}
+			sb.WriteString(fmt.Sprintf("%s:%v;", m.Name, r.Interface()))
+		}()
+	}
+	sb.WriteString("}")
+	return sb.String()
+}
+
+// c07Slices lists the paths (as getter / At(i) steps) of every slice of message elements reachable from root.
+type c07Step struct {
+	M   string
+	Idx int // -1: zero-argument getter
+}
+
+func c07Follow(root reflect.Value, path []c07Step) (v reflect.Value, ok bool) {
+	defer func() {
+		if r := recover(); r != nil {
+			ok = false
+		}
+	}()
+	v = root
+	for _, s := range path {
+		if s.Idx >= 0 {
+			v = v.MethodByName(s.M).Call([]reflect.Value{reflect.ValueOf(s.Idx)})[0]
+		} else {
+			v = v.MethodByName(s.M).Call(nil)[0]
+		}
+	}
+	return v, true
+}
+
+func c07Slices(root reflect.Value) [][]c07Step {
+	var out [][]c07Step
+	seen := map[string]bool{}
+	var walk func(v reflect.Value, path []c07Step, depth int)
+	walk = func(v reflect.Value, path []c07Step, depth int) {
+		if depth > 20 {
+			return
+		}
+		ty := v.Type()
+		_, hasAt := ty.MethodByName("At")
+		_, hasAppend := ty.MethodByName("AppendEmpty")
+		if hasAt && hasAppend {
+			n := 0
+			func() {
+				defer func() { _ = recover() }()
+				n = int(v.MethodByName("Len").Call(nil)[0].Int())
+			}()
+			var el reflect.Type
+			if m, ok := ty.MethodByName("At"); ok {
+				el = m.Type.Out(0)
+			}
+			if _, ok := el.MethodByName("CopyTo"); ok && n > 0 {
+				key := fmt.Sprint(path)
+				if !seen[key] {
+					seen[key] = true
+					out = append(out, append([]c07Step(nil), path...))
+				}
+			}
+			for i := 0; i < n; i++ {
+				var c reflect.Value
+				func() {
+					defer func() { _ = recover() }()
+					c = v.MethodByName("At").Call([]reflect.Value{reflect.ValueOf(i)})[0]
+				}()
+				if c.IsValid() && c.Kind() == reflect.Struct && c.NumMethod() > 0 {
+					walk(c, append(append([]c07Step(nil), path...), c07Step{"At", i}), depth+1)
+				}
+			}
+			return
+		}
+		for i := 0; i < ty.NumMethod(); i++ {
+			m := ty.Method(i)
+			mt := m.Type
+			if mt.NumIn() != 1 || mt.NumOut() != 1 || c07IsMutatorName(m.Name) {
+				continue
+			}
+			o := mt.Out(0)
+			if o.Kind() != reflect.Struct || o.NumMethod() == 0 || !strings.Contains(o.PkgPath(), "/pdata/") {
+				continue
+			}
+			var c reflect.Value
+			func() {
+				defer func() { _ = recover() }()
+				c = v.Method(i).Call(nil)[0]
+				// touch it: an accessor of another one-of alternative returns a wrapper that panics on use
+				if lm, ok := o.MethodByName("Len"); ok && lm.Type.NumIn() == 1 {
+					c.MethodByName("Len").Call(nil)
+				}
+			}()
+			if c.IsValid() {
+				walk(c, append(append([]c07Step(nil), path...), c07Step{m.Name, -1}), depth+1)
+			}
+		}
+	}
+	walk(root, nil, 0)
+	return out
+}
+
+// c07Populate calls every single-argument primitive setter of every value reachable from v with a non-default argument,
+// so that the existing elements have every plain and every OPTIONAL field set (the message alternatives of a one-of stay
+// as the payload builder chose them).
+func c07Populate(v reflect.Value, depth int) {
+	if depth > 20 {
+		return
+	}
+	ty := v.Type()
+	if _, ok := ty.MethodByName("AsRaw"); ok {
+		return // pcommon.Value / Map / Slice and the primitive slices: contents, not fields
+	}
+	if _, ok := ty.MethodByName("At"); ok {
+		n := 0
+		func() {
+			defer func() { _ = recover() }()
+			n = int(v.MethodByName("Len").Call(nil)[0].Int())
+		}()
+		for i := 0; i < n; i++ {
+			func() {
+				defer func() { _ = recover() }()
+				c := v.MethodByName("At").Call([]reflect.Value{reflect.ValueOf(i)})[0]
+				if c.Kind() == reflect.Struct && c.NumMethod() > 0 {
+					c07Populate(c, depth+1)
+				}
+			}()
+		}
+		return
+	}
+	for i := 0; i < ty.NumMethod(); i++ {
+		m := ty.Method(i)
+		mt := m.Type
+		switch {
+		case strings.HasPrefix(m.Name, "Set") && !strings.HasPrefix(m.Name, "SetEmpty") && mt.NumIn() == 2 && mt.NumOut() == 0:
+			at := mt.In(1)
+			a := reflect.New(at).Elem()
+			switch at.Kind() {
+			case reflect.Bool:
+				a.SetBool(true)
+			case reflect.Int, reflect.Int32, reflect.Int64:
+				a.SetInt(1)
+			case reflect.Uint32, reflect.Uint64:
+				a.SetUint(7)
+			case reflect.Float64:
+				a.SetFloat(1.5)
+			case reflect.String:
+				a.SetString("x")
+			case reflect.Array:
+				if at.Elem().Kind() == reflect.Uint8 {
+					for k := 0; k < a.Len(); k++ {
+						a.Index(k).SetUint(uint64(k + 1))
+					}
+				}
+			default:
+				continue
+			}
+			func() {
+				defer func() { _ = recover() }()
+				v.Method(i).Call([]reflect.Value{a})
+			}()
+		case mt.NumIn() == 1 && mt.NumOut() == 1 && !c07IsMutatorName(m.Name):
+			o := mt.Out(0)
+			if o.Kind() != reflect.Struct || o.NumMethod() == 0 || !strings.Contains(o.PkgPath(), "/pdata/") {
+				continue
+			}
+			func() {
+				defer func() { _ = recover() }()
+				c07Populate(v.Method(i).Call(nil)[0], depth+1)
+			}()
+		}
+	}
+}
+
+var c07SCSlices []string
+
+func c07PathString(sp []c07Step) string {
+	var sb strings.Builder
+	for _, st := range sp {
+		if st.Idx >= 0 {
+			sb.WriteString(fmt.Sprintf(".At(%d)", st.Idx))
+		} else {
+			sb.WriteString("." + st.M + "()")
+		}
+	}
+	return sb.String()
+}
+
+func c07StructCopySweep(payloads map[string]func() (any, func() []byte), name string) (out [][2]string, cases int) {
+	mk, ok := payloads[name]
+	if !ok {
+		return nil, 0
+	}
+	root0, _ := mk()
+	reported := map[string]bool{}
+	for _, sp := range c07Slices(reflect.ValueOf(root0)) {
+		s0, ok := c07Follow(reflect.ValueOf(root0), sp)
+		if !ok {
+			continue
+		}
+		n := int(s0.MethodByName("Len").Call(nil)[0].Int())
+		c07SCSlices = append(c07SCSlices, fmt.Sprintf("%s%s len=%d", name, c07PathString(sp), n))
+		// operands: indices 0..n-1 and n = a fresh element
+		for si := 0; si <= n; si++ {
+			for di := 0; di <= n; di++ {
+				if si == di {
+					continue
+				}
+				root, _ := mk()
+				c07Populate(reflect.ValueOf(root), 0)
+				sl, ok := c07Follow(reflect.ValueOf(root), sp)
+				if !ok {
+					continue
+				}
+				fresh := sl.MethodByName("AppendEmpty").Call(nil)[0]
+				pick := func(i int) reflect.Value {
+					if i == n {
+						return fresh
+					}
+					return sl.MethodByName("At").Call([]reflect.Value{reflect.ValueOf(i)})[0]
+				}
+				src, dst := pick(si), pick(di)
+				cases++
+				want := c07Obs(src, 0)
+				desc := func(i int) string {
+					if i == n {
+						return "a fresh element"
+					}
+					return fmt.Sprintf("element %d", i)
+				}
+				var pan any
+				func() {
+					defer func() { pan = recover() }()
+					src.MethodByName("CopyTo").Call([]reflect.Value{dst})
+				}()
+				ty := src.Type().Name()
+				if pan != nil {
+					if !reported["p"+ty] {
+						reported["p"+ty] = true
+						out = append(out, [2]string{"struct-copy-panicked:" + ty, fmt.Sprintf("%s: %s: CopyTo of %s into %s panicked: %v", name, c07PathString(sp), desc(si), desc(di), pan)})
+					}
+					continue
+				}
+				if got := c07Obs(dst, 0); got != want {
+					if !reported["d"+ty] {
+						reported["d"+ty] = true
+						out = append(out, [2]string{"struct-copy-destination-differs:" + ty, fmt.Sprintf("%s: slice %s: after CopyTo of %s into %s the destination differs from the source:\n source      %s\n destination %s", name, c07PathString(sp), desc(si), desc(di), c07Diff(want, got), c07Diff(got, want))})
+					}
+					continue
+				}
+				if after := c07Obs(src, 0); after != want {
+					if !reported["s"+ty] {
+						reported["s"+ty] = true
+						out = append(out, [2]string{"struct-copy-changed-its-source:" + ty, fmt.Sprintf("%s: slice %s: CopyTo of %s into %s changed the source", name, c07PathString(sp), desc(si), desc(di))})
+					}
+				}
+			}
+		}
+	}
+	return out, cases
+}
+
+// c07Diff shows the part of a around the first position where it differs from b.
+func c07Diff(a, b string) string {
+	i := 0
+	for i < len(a) && i < len(b) && a[i] == b[i] {
+		i++
+	}
+	lo, hi := i-60, i+100
+	if lo < 0 {
+		lo = 0
+	}
+	if hi > len(a) {
+		hi = len(a)
+	}
+	return "..." + a[lo:hi] + "..."
 }
